@@ -41,9 +41,12 @@ class LocalSim(mosaik_api_v3.Simulator):
             ctx.nstep[self.sid] = ctx.nstep.get(self.sid, 0) + 1
             t, inputs, m = args
             ctx.steptime[self.sid] = t
-            ctx.record({"k": "SB", "s": self.sid, "t": t, "m": m, "inp": _inp_list(inputs)})
+            ev = {"k": "SB", "s": self.sid, "t": t, "m": m, "inp": _inp_list(inputs)}
+            if ctx.rt is not None:
+                ev["w"] = ctx.ticks()
+            ctx.record(ev)
         else:
-            ctx.record({"k": "DB", "s": self.sid})
+            ctx.record({"k": "DB", "s": self.sid, "req": sorted([eid, sorted(a)] for eid, a in args[0].items())})
         p = Pending(kind, self.sid, ctx.nstep.get(self.sid, 0), copy.deepcopy(tuple(args)), None, ctx.nreq)
         rep = ctx.behaviour.reply(ctx, p)
         ctx.last_reply[(self.sid, kind)] = rep.value
